@@ -23,6 +23,9 @@ type decoder struct {
 	Name   string
 	Strict func(in *gio.DataInputX)
 	Deep   func(in *gio.DataInputX) // nil: same as Strict
+	// NoNet: the decoder as run here is defined through Available() of the outer stream (the
+	// step stream: "until the input is used up"), which a connection cannot answer
+	NoNet bool
 }
 
 var decoders []decoder
@@ -33,7 +36,7 @@ func reg(name string, strict func(in *gio.DataInputX), deep func(in *gio.DataInp
 		panic("duplicate decoder " + name)
 	}
 	decoderIdx[name] = len(decoders)
-	decoders = append(decoders, decoder{name, strict, deep})
+	decoders = append(decoders, decoder{Name: name, Strict: strict, Deep: deep})
 }
 
 func dec(name string) int {
@@ -119,6 +122,7 @@ func init() {
 			step.ReadStep(in)
 		}
 	}, nil)
+	decoders[dec("ReadStep/stream")].NoNet = true
 	reg("Read/MessageStepX", func(in *gio.DataInputX) {
 		in.ReadByte()
 		step.NewMessageStepX().Read(in)
